@@ -58,6 +58,7 @@ type aPkt struct {
 	HasVlan  bool
 	TCI      uint16
 	V6       bool
+	Ver      byte // version nibble of the network header (4 / 6 as a rule; the dissector reports whatever is there)
 	// IPv4 (IHL = 5)
 	TOS            byte
 	TotalLen, ID   uint16
@@ -177,10 +178,10 @@ func (p *aPkt) encode() []byte {
 		o = sfCat(o, sfBe16(et))
 	}
 	if !p.V6 {
-		o = sfCat(o, []byte{0x45, p.TOS}, sfBe16(p.TotalLen), sfBe16(p.ID), sfBe16(uint16(p.Flags)<<13|p.FragOff),
+		o = sfCat(o, []byte{p.Ver<<4 | 5, p.TOS}, sfBe16(p.TotalLen), sfBe16(p.ID), sfBe16(uint16(p.Flags)<<13|p.FragOff),
 			[]byte{p.TTL, byte(p.L4)}, sfBe16(p.Csum), p.Src4[:], p.Dst4[:])
 	} else {
-		o = sfCat(o, sfBe32(6<<28|uint32(p.TC)<<20|p.FlowLabel), sfBe16(p.PayLen), []byte{byte(p.L4), p.Hop}, p.Src6[:], p.Dst6[:])
+		o = sfCat(o, sfBe32(uint32(p.Ver)<<28|uint32(p.TC)<<20|p.FlowLabel), sfBe16(p.PayLen), []byte{byte(p.L4), p.Hop}, p.Src6[:], p.Dst6[:])
 	}
 	switch p.L4 {
 	case 6:
@@ -280,11 +281,11 @@ func (p *aPkt) expected() *packet.Packet {
 		}
 	}
 	if !p.V6 {
-		e.L3 = packet.IPv4Header{Version: 4, TOS: int(p.TOS), TotalLen: int(p.TotalLen), ID: int(p.ID), Flags: int(p.Flags),
+		e.L3 = packet.IPv4Header{Version: int(p.Ver), TOS: int(p.TOS), TotalLen: int(p.TotalLen), ID: int(p.ID), Flags: int(p.Flags),
 			FragOff: int(p.FragOff), TTL: int(p.TTL), Protocol: p.L4, Checksum: int(p.Csum),
 			Src: net.IP(p.Src4[:]).String(), Dst: net.IP(p.Dst4[:]).String()}
 	} else {
-		e.L3 = packet.IPv6Header{Version: 6, TrafficClass: int(p.TC), FlowLabel: int(p.FlowLabel), PayloadLen: int(p.PayLen),
+		e.L3 = packet.IPv6Header{Version: int(p.Ver), TrafficClass: int(p.TC), FlowLabel: int(p.FlowLabel), PayloadLen: int(p.PayLen),
 			NextHeader: p.L4, HopLimit: int(p.Hop), Src: net.IP(p.Src6[:]).String(), Dst: net.IP(p.Dst6[:]).String()}
 	}
 	switch p.L4 {
@@ -449,6 +450,13 @@ func genPkt(r *rand.Rand) *aPkt {
 		p.V6 = true
 	default:
 		p.V6 = r.Intn(2) == 0
+	}
+	p.Ver = 4
+	if p.V6 {
+		p.Ver = 6
+	}
+	if r.Intn(8) == 0 {
+		p.Ver = byte(r.Intn(16))
 	}
 	copy(p.Dst[:], rbytes(r, 6))
 	copy(p.Src[:], rbytes(r, 6))
